@@ -353,6 +353,102 @@ async fn run(ctx: &mut Ctx, ty: &str, npeers: usize, seed: u64, case: &Value) {
     }
 }
 
+/// The application gives up on a send that waits for a peer that is not reading (a timeout
+/// around `send`, a `select!`): the peer is still connected, so it is still one of the n
+/// peers — the next successful sends keep rotating over all of them, and a send never
+/// fails for lack of peers while one is connected.
+async fn abandoned_send(ctx: &mut Ctx, ty: &str, n: usize, seed: u64, case: &Value) {
+    let mut r = Rng::keyed(seed, &[10, 0xABA]);
+    let mut sock = Sock::new(ty, None);
+    let mut peers: Vec<Peer> = Vec::new();
+    for k in 0..n {
+        match Peer::attach(&sock, peer_type_for(ty), Some(format!("p{k}").as_bytes())).await {
+            Ok(p) => peers.push(p),
+            Err(e) => {
+                ctx.inconclusive(format!("C10 attach: {e}"));
+                return;
+            }
+        }
+    }
+    // whoever is next in the rotation does not read
+    for p in &peers {
+        p.conn.set_credit(Some(0));
+    }
+    let size = *r.pick(&[10usize, 5_000, 200_000]);
+    let polls = r.range(1, 3);
+    let abandoned_msg = rc::tagged(70, 0, &[size]);
+    {
+        let mut f = Managed::new(sock.send(&abandoned_msg));
+        let mut pending = false;
+        for _ in 0..polls {
+            if f.poll_once().is_ready() {
+                break;
+            }
+            pending = true;
+            sim::settle().await;
+        }
+        if !pending {
+            ctx.count("abandoned_send_not_reached");
+            return;
+        }
+    } // dropped while waiting
+    ctx.count("sends_abandoned_while_waiting_for_a_peer");
+    for p in &peers {
+        p.conn.set_credit(None);
+    }
+    sim::settle().await;
+    let base: Vec<usize> = peers.iter().map(|p| p.out_msgs().map(|m| m.len()).unwrap_or(0)).collect();
+    let mut served = vec![0usize; n];
+    let rounds = 2 * n;
+    for k in 0..rounds as u32 {
+        let msg = rc::tagged(71, k, &[r.below(30)]);
+        match sim::complete(sock.send(&msg)).await {
+            Ok(Ok(())) => {}
+            other => {
+                ctx.violation_with(
+                    &format!("C10/send-fails-although-a-peer-is-connected/{ty}"),
+                    format!("{n} connected peers; a send that was waiting for one of them was abandoned (after {polls} polls, {size}-byte body), the peer then read again; send #{k} afterwards: {other:?}"),
+                    case.clone(),
+                );
+                return;
+            }
+        }
+        if ty == "REQ" {
+            // answer wherever the request went, so that the next one may be sent
+            for p in &peers {
+                let have = p.out_msgs().map(|m| m.len()).unwrap_or(0);
+                let _ = have;
+            }
+            for (i, p) in peers.iter().enumerate() {
+                let cnt = p.out_msgs().map(|m| m.len()).unwrap_or(0);
+                if cnt > base[i] + served[i] + (cnt - base[i] - served[i]).saturating_sub(1) && cnt > base[i] + served[i] {
+                    // (any number of earlier abandoned bytes may have surfaced as extra requests)
+                }
+            }
+        }
+        for (i, p) in peers.iter().enumerate() {
+            let cnt = p.out_msgs().map(|m| m.iter().filter(|x| rc::parse_tag(x, if ty == "REQ" { 1 } else { 0 }).map(|t| t.origin == 71).unwrap_or(false)).count()).unwrap_or(0);
+            if cnt > served[i] {
+                served[i] = cnt;
+                if ty == "REQ" {
+                    p.send(&[vec![], b"ok".to_vec()]);
+                    let _ = recv_now(&mut sock).await;
+                }
+            }
+        }
+    }
+    let unserved: Vec<usize> = served.iter().enumerate().filter(|(_, c)| **c == 0).map(|(i, _)| i).collect();
+    if !unserved.is_empty() {
+        ctx.violation_with(
+            &format!("C10/connected-peer-left-the-rotation-after-abandoned-send/{ty}"),
+            format!("{n} connected peers; after a send waiting for one of them was abandoned and the peer read again, {rounds} successful sends reached {served:?}: peers {unserved:?} are never served again"),
+            case.clone(),
+        );
+        return;
+    }
+    ctx.count("rotations_intact_after_an_abandoned_send");
+}
+
 /// A peer with an announced identity goes away and comes back under the same identity
 /// (old connection ended; seen by the socket or not yet): it is ONE peer of the rotation.
 async fn reconnect(ctx: &mut Ctx, ty: &str, others: usize, observed: bool, case: &Value) {
@@ -590,6 +686,13 @@ impl Prop for C10 {
             }
         }
         for ty in ["PUSH", "DEALER", "REQ"] {
+            for n in 1..=4usize {
+                for k in 0..tier.pick(6u64, 60) {
+                    v.push(json!({"kind": "abandoned_send", "ty": ty, "peers": n, "seed": mix(seed ^ 0xABA ^ k << 8 ^ n as u64)}));
+                }
+            }
+        }
+        for ty in ["PUSH", "DEALER", "REQ"] {
             for others in 0..=3usize {
                 for observed in [false, true] {
                     v.push(json!({"kind": "reconnect", "ty": ty, "others": others, "observed": observed}));
@@ -626,6 +729,13 @@ impl Prop for C10 {
             }
             return;
         }
+        if s(case, "kind") == "abandoned_send" {
+            ctx.eval(hash_str(&case.to_string()), true);
+            ctx.sample("abandoned_send", || case.clone());
+            let ty = s(case, "ty").to_string();
+            sim::run(abandoned_send(ctx, &ty, u(case, "peers") as usize, u(case, "seed"), case));
+            return;
+        }
         if s(case, "kind") == "reconnect" {
             ctx.eval(hash_str(&case.to_string()), true);
             ctx.sample("reconnect", || case.clone());
@@ -643,6 +753,7 @@ impl Prop for C10 {
     fn floors(&self, _tier: Tier) -> Vec<(&'static str, u64)> {
         vec![
             ("successful_sends", 5000),
+            ("rotations_intact_after_an_abandoned_send", 30),
             ("rig_peers_joined_while_the_application_was_sending", 100),
             ("rotation_windows_n_ge_3", 1000),
             ("sends_pending_under_backpressure", 200),
